@@ -655,6 +655,21 @@ class Runner:
                 if any(form_of(nm, fm) in r for fm in FORMS):
                     acc.fail('phantom_name', case, where + f'{nm!r} is reported present after reopen but was never '
                              f'written / was deleted', **self.sig(cfg, model))
+        # the same archive read through the file-system wrapper (VPKFileSystem / get_filesystem): same names, same bytes
+        if listing_ok and disk:
+            try:
+                from srctools.filesys import VPKFileSystem
+                vfs = VPKFileSystem(vpk_path(wd, kind))
+                for nm in sorted(disk):
+                    with vfs[nm].open_bin() as fb:
+                        got_fs = fb.read()
+                    if got_fs != disk[nm]:
+                        acc.fail('read_mismatch', case, where + f'through VPKFileSystem {nm!r} reads {bdesc(got_fs)}, last written {bdesc(disk[nm])} '
+                                 f'[{relation(got_fs, disk[nm])}]', **self.sig(cfg, model, via='filesys'))
+                        break
+            except Exception as exc:  # noqa: BLE001
+                acc.fail('read_raised', case, where + f'reading through VPKFileSystem raised {type(exc).__name__}: {exc}',
+                         **self.sig(cfg, model, exc=type(exc).__name__, via='filesys'))
         try:
             va = r.verify_all()
         except Exception as exc:  # noqa: BLE001
